@@ -323,6 +323,11 @@ SPECIFIC = {
     "graph_pair": lambda env: (_graph(), {"g": 1}),
     "small_int": lambda env: (99, {"sel": {"no": 1}}),
     "group_scalar": lambda env: (5, {"group": [{"a": 1}]}),
+    # scalars whose context.group is the user's own key (a label, a number, names)
+    "group_label_scalar": lambda env: (6, {"group": "signal"}),
+    "group_number_scalar": lambda env: (7, {"group": 3}),
+    "group_names_scalar": lambda env: (8, {"group": ["a", "b"]}),
+    "group_dict_scalar": lambda env: (9, {"group": {"name": "g"}}),
     "no_sel_key": lambda env: (100, {"other": 1}),
     # ---- selected values
     "A_hist": lambda env: _hist1(),
@@ -458,7 +463,9 @@ CONFIGS = {
     "RunIf_ctxkey": (["A_sel1", "A_sel2", "A_sel3"],
                      ALL_COMMON + ["no_sel_key", "hist_pair"], []),
     "MapGroup": (["A_group1", "A_group2", "A_group3"],
-                 ALL_COMMON + ["group_scalar", "hist_pair", "no_sel_key"], []),
+                 ALL_COMMON + ["group_scalar", "hist_pair", "no_sel_key", "group_label_scalar",
+                               "group_number_scalar", "group_names_scalar",
+                               "group_dict_scalar"], []),
 }
 ORDER = sorted(CONFIGS)
 
@@ -825,3 +832,5 @@ RULE += (' Added: unselected data with non-callable attributes named write / run
          'callable objects that are false in a boolean context.')
 RULE += (' Added: HistToGraph with make_value given as a Variable over histograms whose bins are '
          '(data, context) pairs, beside such a histogram with histogram.to_graph False.')
+RULE += (' Added: scalars whose context.group is a label, a number, a list of names or a dict among '
+         'the unselected values of MapGroup(map_scalars=False).')
